@@ -742,7 +742,7 @@ func oracle(stream, in, outp string) {
 				o.fail("never-crashes", line)
 				continue
 			}
-			if strings.HasPrefix(res, "1 ") != e.respond {
+			if !e.either && strings.HasPrefix(res, "1 ") != e.respond {
 				o.fail(e.clause, res)
 			}
 			o.checkTable(s.proxy, true, false, nil, line)
